@@ -155,8 +155,9 @@ def t_Union : List Tpl := [
     .text ['\n', ']']] [
     .text ['\n'],
     .out (.name "class_name"),
-    .text [':', ' ', 'T', 'y', 'p', 'e', 'A', 'l', 'i', 'a', 's', ' ', '=', ' '],
-    .out (.attr (.item (.name "fields") (.int 0)) "name")]]
+    .text [':', ' ', 'T', 'y', 'p', 'e', 'A', 'l', 'i', 'a', 's', ' ', '=', ' ', 'U', 'n', 'i', 'o', 'n', '[', '\''],
+    .out (.attr (.item (.name "fields") (.int 0)) "name"),
+    .text ['\'', ']']]]
 
 /-- `dataclass.jinja2` -/
 def t_dataclass : List Tpl := [
